@@ -39,31 +39,26 @@ theorem plain_stripPs : ∀ ps : List (String × Expr), plainPs (stripPs ps) = t
   | (_, e) :: ps => by simp [stripPs, plainPs, plain_stripE e, plain_stripPs ps]
 end
 
-theorem plain_stripMember (m m' : Member) (h : stripMember m = some m') : plainMember m' = true := by
-  cases m with
-  | field md st name opt definite ty init =>
-    simp only [stripMember, Option.some.injEq] at h
-    subst h
-    simp [plainMember, plainMods, noMods, plain_stripE]
-  | method md st name tps ps ret ov body =>
-    simp only [stripMember, Option.some.injEq] at h
-    subst h
-    simp [plainMember, plainMods, noMods, plain_stripE, plainRet]
-    intro x _; exact plain_stripParam x
-  | indexSig k kt vt => simp [stripMember] at h
-
-theorem all_plain_filterMap (ms : List Member) : (ms.filterMap stripMember).all plainMember = true := by
-  induction ms with
-  | nil => rfl
-  | cons m ms ih =>
-    simp only [List.filterMap_cons]
-    cases h : stripMember m with
-    | none => simpa using ih
-    | some m' =>
-      simp only [List.all_cons, plain_stripMember m m' h, Bool.true_and]
-      exact ih
-
 mutual
+theorem plain_stripMember : ∀ (m m' : Member), stripMember m = some m' → plainMember m' = true
+  | .field md st name opt definite ty init, m', h => by
+      simp only [stripMember, Option.some.injEq] at h
+      subst h
+      simp [plainMember, plainMods, noMods, plain_stripE]
+  | .method md st name tps ps ret ov locals body, m', h => by
+      simp only [stripMember, Option.some.injEq] at h
+      subst h
+      simp [plainMember, plainMods, noMods, plain_stripE, plainRet, plain_stripSs locals]
+      intro x _; exact plain_stripParam x
+  | .indexSig k kt vt, _, h => by simp [stripMember] at h
+  | .declareField _ _, _, h => by simp [stripMember] at h
+theorem plain_stripMs : ∀ ms : List Member, plainMs (stripMs ms) = true
+  | [] => by simp [stripMs, plainMs]
+  | m :: ms => by
+      simp only [stripMs]
+      cases h : stripMember m with
+      | none => exact plain_stripMs ms
+      | some m' => simp [plainMs, plain_stripMember m m' h, plain_stripMs ms]
 theorem plain_stripS : ∀ (s s' : Stmt), stripS s = some s' → plainS s' = true
   | .decl kw x d ty init, s', h => by
       simp only [stripS, Option.some.injEq] at h; subst h
@@ -75,7 +70,7 @@ theorem plain_stripS : ∀ (s s' : Stmt), stripS s = some s' → plainS s' = tru
   | .cls name tps impls members, s', h => by
       simp only [stripS, Option.some.injEq] at h; subst h
       simp only [plainS, List.isEmpty_nil, Bool.true_and]
-      exact all_plain_filterMap members
+      exact plain_stripMs members
   | .expr e, s', h => by
       simp only [stripS, Option.some.injEq] at h; subst h
       simp [plainS, plain_stripE]
@@ -173,26 +168,22 @@ theorem mods_eq (m : Mods) (h : plainMods m = true) : m = noMods := by
     simp only [plainMods, Bool.and_eq_true, Option.isNone_iff_eq_none, Bool.not_eq_eq_eq_not, Bool.not_true] at h
     simp [noMods, h.1.1, h.1.2, h.2]
 
-theorem stripMember_of_plain (m : Member) (h : plainMember m = true) : stripMember m = some m := by
-  cases m with
-  | field md st name opt definite ty init =>
-    simp only [plainMember, Bool.and_eq_true, Option.isNone_iff_eq_none, Bool.not_eq_eq_eq_not, Bool.not_true] at h
-    simp [stripMember, stripE_of_plain init h.2, mods_eq md h.1.1.1.1, h.1.1.1.2, h.1.1.2, h.1.2]
-  | method md st name tps ps ret ov body =>
-    simp only [plainMember, Bool.and_eq_true, List.isEmpty_iff] at h
-    simp [stripMember, stripE_of_plain body h.2, mods_eq md h.1.1.1.1.1, h.1.1.1.1.2,
-      map_stripParam_of_plain ps h.1.1.1.2, plainRet_eq ret h.1.1.2, h.1.2]
-  | indexSig _ _ _ => simp [plainMember] at h
-
-theorem filterMap_of_plain (ms : List Member) (h : ms.all plainMember = true) :
-    ms.filterMap stripMember = ms := by
-  induction ms with
-  | nil => rfl
-  | cons m ms ih =>
-    simp only [List.all_cons, Bool.and_eq_true] at h
-    simp [stripMember_of_plain m h.1, ih h.2]
-
 mutual
+theorem stripMember_of_plain : ∀ m : Member, plainMember m = true → stripMember m = some m
+  | .field md st name opt definite ty init, h => by
+      simp only [plainMember, Bool.and_eq_true, Option.isNone_iff_eq_none, Bool.not_eq_eq_eq_not, Bool.not_true] at h
+      simp [stripMember, stripE_of_plain init h.2, mods_eq md h.1.1.1.1, h.1.1.1.2, h.1.1.2, h.1.2]
+  | .method md st name tps ps ret ov locals body, h => by
+      simp only [plainMember, Bool.and_eq_true, List.isEmpty_iff] at h
+      simp [stripMember, stripE_of_plain body h.2, stripSs_of_plain locals h.1.2, mods_eq md h.1.1.1.1.1.1, h.1.1.1.1.1.2,
+        map_stripParam_of_plain ps h.1.1.1.1.2, plainRet_eq ret h.1.1.1.2, h.1.1.2]
+  | .indexSig _ _ _, h => by simp [plainMember] at h
+  | .declareField _ _, h => by simp [plainMember] at h
+theorem stripMs_of_plain : ∀ ms : List Member, plainMs ms = true → stripMs ms = ms
+  | [], _ => by simp [stripMs]
+  | m :: ms, h => by
+      simp only [plainMs, Bool.and_eq_true] at h
+      simp [stripMs, stripMember_of_plain m h.1, stripMs_of_plain ms h.2]
 theorem stripS_of_plain : ∀ s : Stmt, plainS s = true → stripS s = some s
   | .decl kw x d ty init, h => by
       simp only [plainS, Bool.and_eq_true, Option.isNone_iff_eq_none, Bool.not_eq_eq_eq_not, Bool.not_true] at h
@@ -203,7 +194,7 @@ theorem stripS_of_plain : ∀ s : Stmt, plainS s = true → stripS s = some s
         map_stripParam_of_plain ps h.1.1.1.1.2, h.1.1.1.1.1]
   | .cls name tps impls members, h => by
       simp only [plainS, Bool.and_eq_true, List.isEmpty_iff] at h
-      simp [stripS, filterMap_of_plain members h.2, h.1.1, h.1.2]
+      simp [stripS, stripMs_of_plain members h.2, h.1.1, h.1.2]
   | .expr e, h => by
       simp only [plainS] at h
       simp [stripS, stripE_of_plain e h]
